@@ -206,11 +206,54 @@ def uninstall() -> None:
     _installed = False
 
 
+_pristine: list = []  # (object, {attribute: scalar value}) for every codec object reachable from the two registries
+
+
+def _snapshot_registries(pa) -> None:
+    """The message registries are module-level singletons whose codec objects carry small flags ("logged once").  One
+    simulated run must not see what an earlier run of the same worker process left there: record the scalar attributes of
+    every object reachable from the registries, restore them at the start of each run."""
+    import enum
+
+    if _pristine:
+        return
+    seen = set()
+
+    def walk(o, depth=0):
+        if id(o) in seen or depth > 8:
+            return
+        seen.add(id(o))
+        if isinstance(o, dict):
+            for v in list(o.values()):
+                walk(v, depth + 1)
+            return
+        if isinstance(o, (list, tuple, set, frozenset)):
+            for v in list(o):
+                walk(v, depth + 1)
+            return
+        if isinstance(o, (enum.Enum, type)) or not type(o).__module__.startswith("pyairtouch"):
+            return
+        d = getattr(o, "__dict__", None)
+        if d is None:
+            return
+        _pristine.append((o, {k: v for k, v in d.items() if isinstance(v, (bool, int, float, str, bytes, type(None)))}))
+        for v in list(d.values()):
+            walk(v, depth + 1)
+
+    for reg in (pa.at4.comms.registry.INSTANCE, pa.at5.comms.registry.INSTANCE):
+        walk(reg)
+
+
 def begin_run(order_fn, first_packet_id: int = 0) -> FakeSocketModule:
     """Reset process-global state at the start of a run."""
     global _order_fn
     pa = _mods()
     _order_fn = order_fn
+    _snapshot_registries(pa)
+    for (o, scal) in _pristine:
+        for k, v in scal.items():
+            if getattr(o, k, None) is not v and getattr(o, k, None) != v:
+                object.__setattr__(o, k, v)
     for reg in (pa.at4.comms.registry.INSTANCE, pa.at5.comms.registry.INSTANCE):
         hf = reg.header_factory
         if not hasattr(hf, "_next_packet_id"):
